@@ -14,6 +14,7 @@ structure LenAx (len : Len) : Prop where
   nonneg : ∀ a b, 0 ≤ len a b
   symm : ∀ a b, len a b = len b a
   eq_of_zero : ∀ a b, len a b = 0 → a = b
+  self_zero : ∀ a, len a a = 0
 
 theorem Pt.ext' {p q : Pt} (hx : p.x = q.x) (hy : p.y = q.y) : p = q := by
   cases p; cases q; simp_all
@@ -301,5 +302,136 @@ theorem sumLen_map_const (len : Len) (c : Rat) (l : List (Pt × Pt)) (h : ∀ s 
     simp only [sumLen, List.length_cons]
     rw [h s (by simp), ih (fun t ht => h t (by simp [ht]))]
     push_cast; ring
+
+/-! ### locate -/
+
+theorem segDistSq_nonneg (p a b : Pt) : 0 ≤ segDistSq p a b := by
+  unfold segDistSq
+  simp only
+  split_ifs
+  all_goals first
+    | exact add_nonneg (mul_self_nonneg _) (mul_self_nonneg _)
+    | exact mul_nonneg (mul_self_nonneg _) (add_nonneg (mul_self_nonneg _) (mul_self_nonneg _))
+
+theorem sq_sum_ne_zero' {a b : Pt} (h : a ≠ b) :
+    (b.x - a.x) * (b.x - a.x) + (b.y - a.y) * (b.y - a.y) ≠ 0 := by
+  intro h0
+  apply h
+  have hx : b.x - a.x = 0 := by nlinarith [mul_self_nonneg (b.x - a.x), mul_self_nonneg (b.y - a.y)]
+  have hy : b.y - a.y = 0 := by nlinarith [mul_self_nonneg (b.x - a.x), mul_self_nonneg (b.y - a.y)]
+  apply Pt.ext' <;> linarith
+
+/-- a point of the segment is at distance zero from it -/
+theorem segDistSq_on (p a b : Pt) (h : a ≠ b) (t : Rat) (h0 : 0 ≤ t) (h1 : t ≤ 1)
+    (hx : p.x = a.x + (b.x - a.x) * t) (hy : p.y = a.y + (b.y - a.y) * t) :
+    segDistSq p a b = 0 := by
+  have hv := sq_sum_ne_zero' h
+  have er : ((p.x - a.x) * (b.x - a.x) + (p.y - a.y) * (b.y - a.y)) /
+      ((b.x - a.x) * (b.x - a.x) + (b.y - a.y) * (b.y - a.y)) = t := by
+    rw [div_eq_iff hv, hx, hy]; ring
+  have es : ((a.y - p.y) * (b.x - a.x) - (a.x - p.x) * (b.y - a.y)) = 0 := by
+    rw [hx, hy]; ring
+  unfold segDistSq
+  simp only [if_neg h]
+  rw [er, es]
+  by_cases ht0 : t ≤ 0
+  · have e0 : t = 0 := le_antisymm ht0 h0
+    rw [if_pos ht0, hx, hy, e0]; ring
+  · rw [if_neg ht0]
+    by_cases ht1 : t ≥ 1
+    · have e1 : t = 1 := le_antisymm h1 ht1
+      rw [if_pos ht1, hx, hy, e1]; ring
+    · rw [if_neg ht1]; simp
+
+theorem segDistSq_lerp (a b : Pt) (h : a ≠ b) (t : Rat) (h0 : 0 ≤ t) (h1 : t ≤ 1) :
+    segDistSq (lerp a b t) a b = 0 :=
+  segDistSq_on _ a b h t h0 h1 rfl rfl
+
+theorem locateGo_done (len : Len) (p : Pt) : ∀ (post : List (Pt × Pt)) (cum best : Rat),
+    locateGo len p post cum (some 0) best = best
+  | [], _, _ => rfl
+  | (a, b) :: post, cum, best => by
+    have : ¬ segDistSq p a b < 0 := not_lt.2 (segDistSq_nonneg p a b)
+    simp only [locateGo, this, decide_false]
+    exact locateGo_done len p post _ best
+
+theorem locateGo_first_hit (len : Len) (p a b : Pt) (post : List (Pt × Pt)) (hz : segDistSq p a b = 0) :
+    ∀ (pre : List (Pt × Pt)) (cum : Rat) (closest : Option Rat) (best : Rat),
+      (∀ c, closest = some c → 0 < c) → (∀ s ∈ pre, 0 < segDistSq p s.1 s.2) →
+      locateGo len p (pre ++ (a, b) :: post) cum closest best =
+        cum + sumLen len pre + lineLocatePoint a b p * len a b
+  | [], cum, closest, best, hc, _ => by
+    cases closest with
+    | none => simp [locateGo, sumLen, hz, locateGo_done]
+    | some c =>
+      have := hc c rfl
+      simp [locateGo, sumLen, hz, this, locateGo_done]
+  | (a', b') :: pre, cum, closest, best, hc, hpre => by
+    have hpos : 0 < segDistSq p a' b' := hpre (a', b') (by simp)
+    have hpre' : ∀ s ∈ pre, 0 < segDistSq p s.1 s.2 := fun s hs => hpre s (by simp [hs])
+    have hnew : ∀ c, some (segDistSq p a' b') = some c → 0 < c := by
+      intro c hc'; cases hc'; exact hpos
+    cases closest with
+    | none =>
+      simp only [List.cons_append, locateGo, sumLen, if_true]
+      rw [locateGo_first_hit len p a b post hz pre _ _ _ hnew hpre']
+      ring
+    | some c =>
+      simp only [List.cons_append, locateGo, sumLen]
+      by_cases hlt : segDistSq p a' b' < c
+      · simp only [hlt, decide_true, if_true]
+        rw [locateGo_first_hit len p a b post hz pre _ _ _ hnew hpre']
+        ring
+      · simp only [hlt, decide_false, Bool.false_eq_true, if_false]
+        rw [locateGo_first_hit len p a b post hz pre _ _ _ hc hpre']
+        ring
+
+/-! ### hypothesis predicates used by the property theorems -/
+
+/-- homogeneity of the length along a segment: the sub-segment between parameters `s ≤ t` has
+length `(t − s) · len a b` (true of the Euclidean length; "collinear pieces add up"). -/
+def LenLerp (len : Len) : Prop :=
+  ∀ (a b : Pt) (s t : Rat), s ≤ t → len (lerp a b s) (lerp a b t) = (t - s) * len a b
+
+/-- The simplicity hypothesis of the LineString round trip, in the form the locate loop needs it:
+the point is at positive distance from every segment that *ends before* the segment on which
+arc length `d` falls. (A simple line string satisfies it for all its points; a line that passes
+through the point earlier does not — and then `line_locate_point` reports the earlier passage.) -/
+def EarlierApart (len : Len) (cs : List Pt) (d : Rat) (p : Pt) : Prop :=
+  ∀ pre a b post, segs cs = pre ++ (a, b) :: post → sumLen len pre < d → d ≤ sumLen len pre + len a b →
+    ∀ s ∈ pre, 0 < segDistSq p s.1 s.2
+
+/-! ### a concrete length satisfying every hypothesis (non-vacuity) -/
+
+/-- taxicab length: rational-valued, satisfies `LenAx` and homogeneity along a segment. (The
+Euclidean length satisfies the same laws; it is rational only on axis-aligned / Pythagorean
+segments, which is where the driver evaluates it exactly.) -/
+def l1 : Len := fun a b => |a.x - b.x| + |a.y - b.y|
+
+theorem l1_ax : LenAx l1 where
+  nonneg a b := add_nonneg (abs_nonneg _) (abs_nonneg _)
+  symm a b := by unfold l1; rw [abs_sub_comm a.x, abs_sub_comm a.y]
+  self_zero a := by simp [l1]
+  eq_of_zero a b h := by
+    unfold l1 at h
+    have h1 := abs_nonneg (a.x - b.x)
+    have h2 := abs_nonneg (a.y - b.y)
+    have e1 : |a.x - b.x| = 0 := by linarith
+    have e2 : |a.y - b.y| = 0 := by linarith
+    exact Pt.ext' (by linarith [abs_eq_zero.1 e1]) (by linarith [abs_eq_zero.1 e2])
+
+private theorem abs_mul_nonneg' (c x : Rat) (hc : 0 ≤ c) : |c * x| = c * |x| := by
+  rcases le_total 0 x with hx | hx
+  · rw [abs_of_nonneg hx, abs_of_nonneg (mul_nonneg hc hx)]
+  · rw [abs_of_nonpos hx, abs_of_nonpos (mul_nonpos_of_nonneg_of_nonpos hc hx)]; ring
+
+theorem l1_lerp (a b : Pt) (s t : Rat) (h : s ≤ t) :
+    l1 (lerp a b s) (lerp a b t) = (t - s) * l1 a b := by
+  unfold l1 lerp
+  simp only
+  have e1 : a.x + (b.x - a.x) * s - (a.x + (b.x - a.x) * t) = (t - s) * (a.x - b.x) := by ring
+  have e2 : a.y + (b.y - a.y) * s - (a.y + (b.y - a.y) * t) = (t - s) * (a.y - b.y) := by ring
+  rw [e1, e2, abs_mul_nonneg' _ _ (by linarith), abs_mul_nonneg' _ _ (by linarith)]
+  ring
 
 end Geo.Proofs.C15
